@@ -98,7 +98,8 @@ def run_config(job):
     else:
         system = oqupy.System(h0, gammas=[gam], lindblad_operators=[lop])
     rho0 = initial_state(d, cfg["init"], rng)
-    coupling = {"diagonal": sz, "real": 0.6 * sz + 0.8 * sx, "complex": 0.5 * sz + 0.5 * sx + 0.7 * sy}[cfg["coupling"]]
+    coupling = {"diagonal": sz, "real": 0.6 * sz + 0.8 * sx, "complex": 0.5 * sz + 0.5 * sx + 0.7 * sy,
+                "degenerate": np.diag([1.0, 1.0, -1.0][:d]).astype(complex)}[cfg["coupling"]]
     bath = oqupy.Bath(coupling, corr)
     ptfile = True if cfg["file"] else None          # a temporary file-backed process tensor
     end = NSTEPS * DT + DT / 4
@@ -155,10 +156,24 @@ def run_config(job):
                 ctrl.add_single_site_control(damp, 2, NSTEPS - 1, post=True)
             t = oqupy.PtTebd(mps, chain, [pt, None, None], oqupy.PtTebdParameters(dt=DT, order=2, epsrel=EPSREL),
                              dynamics_sites=[0, 1, (1, 2)], chain_control=ctrl)
-            res = t.compute(NSTEPS, progress_type="silent")
-            norms = res["norm"]
-            states = [(a, b, c) for a, b, c in zip(res["dynamics"][0].states, res["dynamics"][1].states,
-                                                   res["dynamics"][(1, 2)].states)]
+            if cfg.get("restart"):
+                # continued from the exported chain state (bond dimension > 1, explicit lambdas) at a step without a
+                # pre-measurement control (that combination is C14's known finding)
+                k0 = 3
+                res = t.compute(k0, progress_type="silent")
+                t2 = oqupy.PtTebd(t.get_augmented_mps(), chain, [pt, None, None],
+                                  oqupy.PtTebdParameters(dt=DT, order=2, epsrel=EPSREL), dynamics_sites=[0, 1, (1, 2)],
+                                  chain_control=ctrl, start_step=k0)
+                res2 = t2.compute(NSTEPS, progress_type="silent")
+                norms = list(res["norm"]) + list(res2["norm"])[1:]
+                states = [(a, b, c) for r_ in (res, res2) for a, b, c in
+                          list(zip(r_["dynamics"][0].states, r_["dynamics"][1].states, r_["dynamics"][(1, 2)].states))[
+                              (1 if r_ is res2 else 0):]]
+            else:
+                res = t.compute(NSTEPS, progress_type="silent")
+                norms = res["norm"]
+                states = [(a, b, c) for a, b, c in zip(res["dynamics"][0].states, res["dynamics"][1].states,
+                                                       res["dynamics"][(1, 2)].states)]
             if ptfile:
                 pt.remove()
         elif cfg["method"] == "gibbs":
@@ -193,7 +208,7 @@ def run(ctx):
         seen, take = {}, []
         for i in order:
             c = cfgs[i]
-            g = (c["method"], c["coupling"], c["file"], c["sys"], c["mem"])
+            g = (c["method"], c["coupling"], c["file"], c["sys"], c["mem"], c["restart"], c["unique"] and c["coupling"] == "degenerate")
             if seen.get(g, 0) < 2:
                 seen[g] = seen.get(g, 0) + 1
                 take.append(i)
